@@ -231,14 +231,14 @@ func drawBuiltSource(r *sim.Run) *objSource {
 	key := make([]byte, 16)
 	rnd.Fill(key)
 	scheme := []string{"cenc", "cbcs"}[t.Draw(2)]
-	var p *c06Prod
+	var p *C06Prod
 	var err error
 	r.Guard("producer+encryptor", func() { p, err = c06Produce(r, scheme, key, randIV(t, rnd)) })
 	if err != nil || p == nil {
 		return nil
 	}
-	stream := append([]byte(nil), p.encInit...)
-	for _, s := range p.encSegs {
+	stream := append([]byte(nil), p.EncInit...)
+	for _, s := range p.EncSegs {
 		stream = append(stream, s...)
 	}
 	var f *mp4.File
